@@ -201,9 +201,19 @@ static bool equal_func(const void* a, const void* b)
   return read_key(a) == read_key(b);
 }
 
+// The search data of plan_insert_prehashed is NOT a key: it is an object only the predicate understands
+// (here a box holding a pointer to the call's key).  The table may hand it to the predicate and to
+// nothing else; a hash or equality callback that receives the box itself is logged as '?' (roles=BAD).
+typedef struct {
+  uint64_t    not_a_key; // what a callback that mistakes the box for a key would read
+  const void* key;
+} SearchBox;
+
+static SearchBox search_box;
+
 static bool match_func(const void* key, const void* user_data)
 {
-  return equal_func(key, user_data);
+  return equal_func(key, ((const SearchBox*)user_data)->key);
 }
 
 // ---------------------------------------------------------------- scripted allocator
@@ -509,7 +519,9 @@ static void run_case(char** tok, int n)
         lg_n               = saved;
         lg[lg_n]           = 0;
         roles_bad          = sb;
-        CALL(plan = zix_hash_plan_insert_prehashed(hash, code, match_func, &callkey));
+        search_box.not_a_key = 0x5EA2C4B0C5ULL;
+        search_box.key       = &callkey;
+        CALL(plan = zix_hash_plan_insert_prehashed(hash, code, match_func, &search_box));
       }
       have_plan = true;
       plan_key  = key;
